@@ -1,11 +1,15 @@
 package triesim
 
 import (
+	"runtime/debug"
 	"testing"
 
 	"verif/sim/kernel"
 )
 
 func TestWorker(t *testing.T) {
+	// Trie.Commit allocates a 768 KiB encode buffer per call; with the default GC target the worker
+	// spends a third of its time in GC bookkeeping. The live heap of a run is a few MiB at most.
+	debug.SetGCPercent(1000)
 	kernel.WorkerMain(t, Engine{})
 }
